@@ -108,6 +108,7 @@ type Conn struct {
 	writeBuf       *bufio.Writer
 	seq            uint16
 	closed         bool
+	closedLock     sync.Mutex
 	stanzaWriter   *stanzaWriter
 	maxBufSize     int
 }
@@ -195,7 +196,7 @@ func (c *Conn) Read(b []byte) (n int, err error) {
 // Write can be made to time out and return an Error with Timeout() == true
 // after a fixed time limit; see SetDeadline and SetWriteDeadline.
 func (c *Conn) Write(b []byte) (n int, err error) {
-	if c.closed {
+	if c.isClosed() {
 		return 0, io.EOF
 	}
 	c.writeLock.Lock()
@@ -242,10 +243,9 @@ func (c *Conn) flush(t xmlstream.Encoder) error {
 // Any blocked Read or Write operations will be unblocked and return errors.
 // If the write buffer contains data it will be flushed.
 func (c *Conn) Close() error {
-	if c.closed {
+	if !c.markClosed() {
 		return nil
 	}
-	c.closed = true
 
 	// Flush any remaining data to be written.
 	err := c.Flush()
@@ -278,11 +278,30 @@ func (c *Conn) Close() error {
 	return respReadCloser.Close()
 }
 
-func (c *Conn) closeNoNotify(t xmlstream.Encoder) error {
+// markClosed marks the connection as closed and reports whether it was open
+// until now: the application's Close and the peer's close request (handled by
+// the serve loop) may arrive at the same time, only one of them shuts the
+// connection down.
+func (c *Conn) markClosed() bool {
+	c.closedLock.Lock()
+	defer c.closedLock.Unlock()
 	if c.closed {
-		return nil
+		return false
 	}
 	c.closed = true
+	return true
+}
+
+func (c *Conn) isClosed() bool {
+	c.closedLock.Lock()
+	defer c.closedLock.Unlock()
+	return c.closed
+}
+
+func (c *Conn) closeNoNotify(t xmlstream.Encoder) error {
+	if !c.markClosed() {
+		return nil
+	}
 
 	c.handler.rmStream(c.stanzaWriter.sid)
 
